@@ -845,6 +845,15 @@ class Engine:
             n = z3.Length(seq)
             self.oblige(path, z3.And(i >= -n, i < n), f"safety.index.{self.lab(e)}", "pre", "list index in range (no IndexError)")
             return self.elem_val(path, base, seq[z3.If(i < 0, i + n, i)])
+        if isinstance(base, SDict) and base.dflt == "list":
+            # collections.defaultdict(list): a missing key is inserted with a new empty list
+            k = self.key_term(path, base, idx)
+            h, vv = path.heap.dict_has(base), path.heap.dict_val(base)
+            present = z3.Select(h, k)
+            fresh_l = self.new_list(path, [], elem=self.c.dict_list_elem(base))
+            lid = z3.If(present, z3.Select(vv, k), fresh_l.id)
+            path.heap.dict_set(base, z3.Store(h, k, z3.BoolVal(True)), z3.Store(vv, k, lid))
+            return SList(lid, self.c.dict_list_elem(base))
         if isinstance(base, SDict):
             k = self.key_term(path, base, idx)
             present = z3.Select(path.heap.dict_has(base), k)
@@ -987,6 +996,11 @@ class Engine:
             return SList(t, ":".join(parts[1:]) if len(parts) > 1 else "ref")
         if k == "dict":
             return SDict(t, parts[1] if len(parts) > 1 else "str", ":".join(parts[2:]) if len(parts) > 2 else "ref")
+        if k == "ddict":
+            base0 = path.heap.f0[name] if name in path.heap.f0 else None
+            if base0 is not None and o is not None:
+                path.assume(z3.And(z3.Select(base0, o) < path.heap.alloc0, z3.Select(base0, o) > 0))
+            return SDict(t, parts[1] if len(parts) > 1 else "str", ":".join(parts[2:]) if len(parts) > 2 else "list", dflt="list")
         if k == "opaque":
             return SOpaque(parts[1] if len(parts) > 1 else name, t)
         raise EngineError(f"field kind {kind}")
@@ -1016,7 +1030,7 @@ class Engine:
             return v.id
         if k == "list" and isinstance(v, SConst) and isinstance(v.py, tuple):
             return self.new_list(path, [SConst(x) for x in v.py], elem=kind.split(":", 1)[1] if ":" in kind else "str").id
-        if k == "dict" and isinstance(v, SDict):
+        if k in ("dict", "ddict") and isinstance(v, SDict):
             return v.id
         if k == "opaque":
             if isinstance(v, SOpaque) and v.t is not None:
@@ -1107,7 +1121,10 @@ class Engine:
 
     def bi_isinstance(self, path, e):
         v = self.ev(path, e.args[0])
-        clsnames = _class_names(e.args[1])
+        if isinstance(e.args[1], ast.Name) and isinstance(self.c.globals.get(e.args[1].id), SConst):
+            clsnames = list(self.c.globals[e.args[1].id].py)       # a module-level tuple of classes
+        else:
+            clsnames = _class_names(e.args[1])
         if isinstance(v, SRef):
             return SBool(self.c.isinstance_term(self, path, v, clsnames))
         if isinstance(v, (SStr, SConst)) and clsnames == ["str"]:
